@@ -5,6 +5,8 @@ import NixModel.Lemmas.C12Avail
 import NixModel.Lemmas.C12MultiTagFull
 import NixModel.Lemmas.C12Extend
 import NixModel.Lemmas.C12VecWrite
+import NixModel.Lemmas.C12Order
+import NixModel.Generated.MutatorOrder
 
 /-!
 # C12 — a refused operation leaves the file exactly as it was
@@ -274,6 +276,67 @@ example : runSetter writeDataSteps tagPosition demoM.file 9
     ({ ds := some { rank := 1, vals := [1/2, 5] }, stamp := 9 }, none) := by decide +kernel
 
 end vectors
+
+/-! ## Validation before the first write, mutator by mutator
+
+`Generated/MutatorOrder.lean` lists the events (validation, raise, primitive write, refusable call, protected
+section) along every path through the body of every public mutator of the anchored modules, in source order.
+`Order.safePath` is the discipline "no validation, raise or refusable call after an unprotected write";
+`safePath_refused_unchanged` shows it sound for the abstract execution of a path (for every oracle of failures). -/
+section order
+open Nix.Order Nix.Generated.MutatorOrder
+
+/-- the mutators that do *not* follow the discipline syntactically, one by one, and where their refusals are dealt with -/
+def writesFirst : List String := [
+  "Section.create_section", "Source.create_source", "Section.create_property", "Section.copy_section",
+    -- `open_group(<container>, True)` precedes the duplicate test: an empty, invisible group (writer model: `Unch`)
+  "Feature.create_new", "Tag.create_new",
+    -- id / entity written first, the rest inside a protected section (writer model: `createFeatureW`, `createInW`)
+  "MultiTag.create_new", "SampledDimension.create_new", "DimensionLink.create_new",
+    -- building blocks called inside the protected sections of `create_multi_tag` / `append_*_dimension` /
+    -- after the validations of `link_data_array` / `link_data_frame`
+  "Dimension.link_data_array", "Dimension.link_data_frame", "DataArray.append_range_dimension_using_self",
+    -- validate, then `remove_link()` followed by `DimensionLink.create_new` (oracle: catalogue + spelling sweep)
+  "DataFrame.append_column",
+    -- builds the widened dataset beside the old one inside a protected section, then swaps (oracle)
+  "Section.__setitem__",
+    -- `create_property` or `values =`, then nothing else: the two refusable calls are on different paths merged by the loop rule
+  "H5Group.delete"
+    -- `del`, then removal of the emptied container group (structural model: `Api.delete`)
+]
+
+/-- **every other public mutator validates before it writes**, on every path through its body — proved by
+evaluation of the table rendered from the source: a write placed before a validation, or a loop of refusable
+calls, in any of them changes the table and breaks this theorem -/
+theorem mutators_validate_first :
+    ∀ m ∈ mutators, m.1 ∈ writesFirst ∨ ∀ p ∈ m.2, safePath p = true := by
+  have h : (mutators.all fun m => writesFirst.contains m.1 || m.2.all safePath) = true := by decide +kernel
+  intro m hm
+  have := List.all_eq_true.mp h m hm
+  rcases Bool.or_eq_true _ _ |>.mp this with h1 | h2
+  · exact .inl (List.contains_iff_mem.mp h1)
+  · exact .inr (fun p hp => List.all_eq_true.mp h2 p hp)
+
+/-- … and therefore, in the abstract execution (validations and refusable calls fail as an arbitrary oracle says,
+a protected section restores the file it found): a refused run of any path of such a mutator ends in the file
+it started from -/
+theorem mutator_paths_refused_unchanged (m : String × List (List Ev)) (hm : m ∈ mutators) (hw : m.1 ∉ writesFirst)
+    (p : List Ev) (hp : p ∈ m.2) (orc : List Bool) (f0 : Nat) (hr : (run p orc f0 none).2 = true) :
+    (run p orc f0 none).1 = f0 := by
+  rcases mutators_validate_first m hm with h | h
+  · exact absurd h hw
+  · exact safePath_refused_unchanged p orc f0 (h p hp) hr
+
+/-- the discipline is not vacuous: the loop of `append` calls `LinkContainer.extend` used to be is rejected -/
+example : safePath [.atomic, .atomic] = false := by decide
+/-- and its execution shows why: the second call refuses after the first has written -/
+example : run [.atomic, .atomic] [false, true] 0 none = (1, true) := by decide
+/-- a validation in front of the writes passes, and so does a protected section -/
+example : safePath [.check, .check, .write, .write] = true := by decide
+example : safePath [.check, .tryBegin, .atomic, .write, .atomic, .tryEnd, .write] = true := by decide
+example : (mutators.length, writesFirst.length) = (115, 15) := by decide +kernel
+
+end order
 
 def demo : Graph := run init [.createBlock "b" "t", .createIn [.name "data", .name "b"] "data_array" "a" "t" none]
 
